@@ -28,6 +28,7 @@ class Sub:
         self.parked = None     # None | 'w' (hand-driven) | 'b' | 'c'
         self.kicked = False
         self.gone = False
+        self.loop = False      # a range-for consumer thread: goes on to the next next() after every value
         self.pos = start
 
 
@@ -46,7 +47,7 @@ def gen_history(rng, maxlen, minlen, nops, flavour):
             return
         sid = next_sid
         mode = rng.choice("aaab" "br" if flavour != "skip" else "abbrr")
-        style = rng.choice(["manual", "manual", "poll", "co", "blk", "mixed", "chain"])
+        style = rng.choice(["manual", "manual", "poll", "co", "blk", "blk", "mixed", "chain", "rfor"])
         r = rng.random()
         if live and r < 0.22:
             src = rng.choice(live)
@@ -83,7 +84,9 @@ def gen_history(rng, maxlen, minlen, nops, flavour):
             others = [e[0] for e in live if e[2] in ("chain", "co", "poll")] or [sid]
             lines.append("chain %d %d" % (sid, rng.choice(others + [sid])))
             return
-        if st == "manual" or stage > 0:
+        if stage == 9:
+            publish()
+        elif st == "manual" or stage > 0:
             if stage == 0:
                 if rng.random() < 0.12:
                     lines.append("sus %d" % sid)
@@ -105,6 +108,18 @@ def gen_history(rng, maxlen, minlen, nops, flavour):
                 lines.append("res %d" % sid)
                 if rng.random() < 0.8:
                     ent[3] = 0
+        elif st == "rfor":
+            # a consumer thread running a range-for over the subscriber; afterwards it only needs to be fed
+            if len(ent) == 4 and stage != 9:
+                lines.append("rfor %d" % sid)
+                ent[3] = 9
+            else:
+                publish()
+        elif st == "blk":
+            # spellings of a blocking next(): bool(next()) / !next() / iterator begin,++ / postfix ++
+            lines.append("blk %d %s" % (sid, rng.choice(["bool", "not", "it", "it", "itpost"])))
+        elif st == "co" and rng.random() < 0.4:
+            lines.append("co %d not" % sid)
         else:
             lines.append("%s %d" % (st, sid))
 
@@ -202,7 +217,8 @@ def gen_history(rng, maxlen, minlen, nops, flavour):
             lines.append("close")
         for ent in live:
             for _ in range(rng.randint(1, 4)):
-                lines.append("%s %d" % (rng.choice(["poll", "co", "blk", "pollr"]), ent[0]))
+                lines.append(rng.choice(["poll %d", "co %d", "co %d not", "blk %d", "blk %d not", "blk %d it", "blk %d itpost",
+                                         "pollr %d"]) % ent[0])
     lines.append("end")
     return {"id": 0, "lines": lines}
 
@@ -317,6 +333,42 @@ def exhaustive_stale_kick():
     return cases
 
 
+def exhaustive_rfor():
+    """a range-for consumer thread (begin / != end / * / ++) and the iterator / operator! spellings of a blocking next()
+    against every short sequence of queue-wide operations"""
+    T = ["pub", "pubn2", "pubn3", "kick", "close"]
+    seqs = [[a] for a in T] + [[a, b] for a in T for b in T] + [[a, b, c] for a in T for b in T for c in T]
+    cases = []
+    for m in "abr":
+        for mx, mn in [(0, 1), (1, 1), (3, 2)]:
+            for pre in (0, 2):
+                for style in ("rfor", "it", "itpost", "not"):
+                    for sq in seqs:
+                        if style != "rfor" and len(sq) == 3:
+                            continue
+                        v = 1
+                        lines = ["case 0 pub %d %d" % (mx, mn), "sub 0 %s" % m]
+                        for _ in range(pre):
+                            lines.append("pub %d" % v); v += 1
+                        step = "rfor 0" if style == "rfor" else "blk 0 %s" % style
+                        lines.append(step)
+                        for op in sq:
+                            if op == "pub":
+                                lines.append("pub %d" % v); v += 1
+                            elif op.startswith("pubn"):
+                                k = int(op[4:])
+                                lines.append("pubn " + " ".join(str(v + i) for i in range(k))); v += k
+                            elif op == "kick":
+                                lines.append("kick 0")
+                            else:
+                                lines.append(op)
+                            if style != "rfor":
+                                lines.append(step)
+                        lines.append("end")
+                        cases.append({"id": 0, "lines": lines})
+    return cases
+
+
 class PubSuite(Suite):
     name = "pub-steps"
     harness = HARNESS
@@ -334,6 +386,8 @@ class PubSuite(Suite):
             cases = rng.sample(cases, 700)
             reent = rng.sample(reent, 500)
         cases += reent
+        rf = exhaustive_rfor()
+        cases += rng.sample(rf, 600) if tier == "quick" else rf
         stale = exhaustive_stale_kick()
         cases += rng.sample(stale, 400) if tier == "quick" else stale
         for i in range(n):
@@ -359,15 +413,18 @@ class PubSuite(Suite):
         closed = False
         subs = {}
         cnt = {"values": 0, "parks": 0, "wakes": 0, "eof_closed": 0, "eof_kicked": 0, "eof_lag": 0, "eof_uncovered": 0,
-               "bad": 0, "window_ops": 0, "reentrant": 0, "stale_kicks": 0}
+               "bad": 0, "window_ops": 0, "reentrant": 0, "stale_kicks": 0, "rfor_items": 0}
         in_window = {}       # sid -> ops seen since its rdy returned 0
 
         def fetched(s, txt, pos):
             """one completed next(): txt = 'v:<n>' | 'eof' | 'v:?'"""
             s.parked = None
             s.pos = pos
-            if txt == "v:?":
-                msgs.append("no-value: next() reported a value for subscriber %d without fetching one" % s.sid)
+            if txt.startswith("v:?"):
+                msgs.append("no-value: next() reported a value for subscriber %d %s" % (s.sid, {
+                    "v:?": "without fetching one", "v:?const": "but value() const disagrees with value()",
+                    "v:?postfix": "but it++ did not hand back the previous value", "v:?cmp": "but it == end() and it != end() agree",
+                    "v:?deref": "but *it / it-> disagree with value()"}.get(txt, txt)))
                 return
             if txt == "eof":
                 if s.eof is not None:
@@ -466,6 +523,14 @@ class PubSuite(Suite):
                         x.parked = None
                     else:
                         fetched(x, txt, pos)
+                        if x.loop and txt != "eof":
+                            x.parked = "b"
+                elif x.loop and x.parked and tag == "b" and sid in released:
+                    # the range-for consumer took one more value (or the end) before it had to wait again
+                    fetched(x, txt, pos)
+                    cnt["rfor_items"] += 1
+                    if txt != "eof":
+                        x.parked = "b"
                 elif sid in expected and tag == "c" and not x.parked:
                     expected.remove(sid)
                     cnt["reentrant"] += 1
@@ -557,6 +622,15 @@ class PubSuite(Suite):
                 s.pos = pos
                 if head[2] == "1":
                     park(s, "w", pos)
+            elif k == "rfor":
+                in_window.pop(sid, None)
+                s.loop = True
+                s.parked = "b"
+                cnt["parks"] += 1
+                handle_events(evs, [])
+                evs = []
+                if s.parked and closed:
+                    msgs.append("close-no-wake: range-for consumer %d was left waiting on a closed publisher" % sid)
             elif k in NEXT_OPS:
                 in_window.pop(sid, None)
                 r = head[2]
@@ -594,7 +668,7 @@ class PubSuite(Suite):
         return cnt["values"] > 0 and (cnt["parks"] > 0 or any(s.eof for s in subs.values()))
 
     def stats(self, cases, outs):
-        ops, modes, cfg = {}, {}, {}
+        ops, modes, cfg, spell = {}, {}, {}, {}
         tot = {}
         for c in cases:
             hdr = c["lines"][0].split()
@@ -605,6 +679,9 @@ class PubSuite(Suite):
             for l in c["lines"][1:-1]:
                 w = l.split()
                 ops[w[0]] = ops.get(w[0], 0) + 1
+                if w[0] in ("blk", "co"):
+                    sp = "%s:%s" % (w[0], w[2] if len(w) > 2 else "bool")
+                    spell[sp] = spell.get(sp, 0) + 1
                 if w[0] in ("sub", "subat"):
                     modes[w[2]] = modes.get(w[2], 0) + 1
             try:
@@ -613,7 +690,9 @@ class PubSuite(Suite):
                 continue
             for k, v in cnt.items():
                 tot[k] = tot.get(k, 0) + v
-        return {"ops": ops, "modes": modes, "configs": cfg, "observed": tot}
+        return {"ops": ops, "modes": modes, "configs": cfg, "observed": tot,
+                "next_spellings": dict(spell, **{"rfor(range-for thread)": ops.get("rfor", 0)}),
+                "value_access": "every fetched value is read through value() and value() const (and *it, it-> for the iterator spellings)"}
 
 
 class ThreadSuite(Suite):
